@@ -49,16 +49,19 @@ def family(fn):
 SEARCH_PREC = 1e-6          # documented default precision of the default search (bisect)
 GAMMA = 0.125               # mean-variance user criterion
 CLOSED = ("erm", "eloss", "es", "qcvar")
-DEFAULT = ("iso", "oce", "user_mv", "user_blend", "user_optimist", "user_worst", "user_es")
+DEFAULT = ("iso", "oce", "user_mv", "user_blend", "user_optimist", "user_worst", "user_es",
+           "user_lossonly", "user_satiated", "oce_cvar")   # the last three: utilities with a FLAT region
 NOT_RISK_AVERSE = ("user_optimist",)   # certainty equivalent above the mean: "cash <= mean" is not demanded
 PARAMS = {"erm": [0.1, 1.0, 10.0], "eloss": [0.1, 1.0, 10.0], "es": [0.05, 0.2, 1 / 3, 0.5, 0.75, 1.0],
           "qcvar": [1.0, 2.0, 10.0, 100.0], "iso": [0.25, 0.5, 1.0], "oce": [0.0, 0.5],
           "user_mv": [GAMMA], "user_blend": [0.5], "user_optimist": [0.5],
-          "user_worst": [0.0], "user_es": [0.05, 0.5]}
+          "user_worst": [0.0], "user_es": [0.05, 0.5],
+          "user_lossonly": [0.0], "user_satiated": [0.25], "oce_cvar": [0.5]}
 NAMES = {"erm": "EntropicRiskMeasure", "eloss": "EntropicLoss", "es": "ExpectedShortfall",
          "qcvar": "QuadraticCVaR", "iso": "IsoelasticLoss", "oce": "OCE", "user_mv": "MeanVariance(user)",
          "user_blend": "MeanMinBlend(user)", "user_optimist": "MeanMaxBlend(user)",
-         "user_worst": "WorstCase(user)", "user_es": "TailMean(user)"}
+         "user_worst": "WorstCase(user)", "user_es": "TailMean(user)",
+         "user_lossonly": "ExpectedLoss(user)", "user_satiated": "SatiatedUtility(user)", "oce_cvar": "OCE[min(x,0)/p]"}
 
 _USER = {}
 
@@ -123,7 +126,27 @@ def _user_classes():
                 return -pl.sort(0).values[:k].mean(0)
 
         _USER["mv"], _USER["blend"], _USER["optimist"] = MeanVariance, MeanMinBlend, MeanMaxBlend
+        class ExpectedLoss(HedgeLoss):
+            """Only losses hurt: -mean(min(pl, 0)); flat in the cash amount on gains."""
+
+            def __init__(self, unused=0.0):
+                super().__init__()
+
+            def forward(self, input, target=0.0):
+                return -(input - target).clamp(max=0.0).mean(0)
+
+        class SatiatedUtility(HedgeLoss):
+            """Concave utility that is satiated above a cap: -mean(min(pl, cap))."""
+
+            def __init__(self, cap):
+                super().__init__()
+                self.cap = cap
+
+            def forward(self, input, target=0.0):
+                return -(input - target).clamp(max=self.cap).mean(0)
+
         _USER["worst"], _USER["es"] = WorstCase, TailMean
+        _USER["lossonly"], _USER["satiated"] = ExpectedLoss, SatiatedUtility
     return _USER
 
 
@@ -146,6 +169,13 @@ def make(crit, param, dtype):
         return _user_classes()["worst"](param)
     if crit == "user_es":
         return _user_classes()["es"](param)
+    if crit == "user_lossonly":
+        return _user_classes()["lossonly"](param)
+    if crit == "user_satiated":
+        return _user_classes()["satiated"](param)
+    if crit == "oce_cvar":
+        from pfhedge.nn.modules.loss import OCE
+        return OCE(lambda z: z.clamp(max=0.0) / param).to(S.DT[dtype])    # CVaR utility, w = 0
     raise KeyError(crit)
 
 
@@ -156,8 +186,11 @@ def site_of(crit):
 def const_slope(crit, param, c):
     """|d/dc criterion(constant sample c)| (float64 tensor)."""
     c = c.to(torch.float64)
-    if crit in ("erm", "es", "qcvar", "user_mv", "user_blend", "user_optimist", "user_worst", "user_es"):
-        return torch.ones_like(c)
+    if crit in ("erm", "es", "qcvar", "user_mv", "user_blend", "user_optimist", "user_worst", "user_es",
+                "user_lossonly", "user_satiated"):
+        return torch.ones_like(c)                      # (an upper bound where the utility is flat)
+    if crit == "oce_cvar":
+        return torch.ones_like(c) / param
     if crit == "eloss":
         return param * torch.exp(-param * c)
     if crit == "iso":
@@ -185,7 +218,8 @@ def crit_tol(crit, param, x, value=None):
         return 2 * eps * ((z.abs().amax(0) + N + 3) * torch.exp(-z).mean(0) + abs(param) + 2)
     r = xd.amax(0) - xd.amin(0)
     g = param if crit == "user_mv" else 0.0
-    return 2 * (N + 4) * eps * (A + g * r * r)
+    amp = 1 / param if crit == "oce_cvar" else 1.0
+    return 2 * (N + 4) * eps * (A + g * r * r) * amp
 
 
 def cash_rounding(crit, param, x, cash):
@@ -454,7 +488,15 @@ def _world(block):
         kw = {"strike": 1.0, "start": market.DT}
     deriv = market.derivative(kind, stock, T=T, **kw)
     for i, k in enumerate(block.get("clauses", [])):
-        deriv.add_clause(f"shift{i}", (lambda kk: (lambda d, payoff: payoff + kk))(k))
+        if k == "neg":          # the hedger is LONG the derivative: payoff -> -payoff
+            deriv.add_clause(f"neg{i}", lambda d, payoff: -payoff)
+        elif isinstance(k, str) and k.startswith("cap:"):      # payoff capped at c
+            deriv.add_clause(f"cap{i}", (lambda c: (lambda d, payoff: payoff.clamp(max=c)))(float(k[4:])))
+        elif isinstance(k, str) and k.startswith("ko:"):       # knocked out (pays nothing) once the spot reached b
+            deriv.add_clause(f"knockout{i}", (lambda b: (lambda d, payoff: payoff.where(
+                d.ul().spot.max(-1).values < b, torch.zeros_like(payoff))))(float(k[3:])))
+        else:
+            deriv.add_clause(f"shift{i}", (lambda kk: (lambda d, payoff: payoff + kk))(k))
     scripts = [{"spot": all_paths([a / 8 for a in A], T, dtype=dtype)} for A in block["alphabets"]]
     if block.get("rows") is not None:
         scripts = [{"spot": s["spot"][block["rows"]]} for s in scripts]
@@ -469,6 +511,13 @@ def _world(block):
     elif mv == "bs":
         model = BlackScholes(deriv)
         inputs = model.inputs()
+    elif mv == "ww":            # state dependent: the no-transaction band needs the previous hedge
+        from pfhedge.nn import WhalleyWilmott
+        model = WhalleyWilmott(deriv)
+        inputs = model.inputs()
+    elif mv == "linear_prev":   # state dependent dyadic linear model
+        inputs = (["moneyness", "time_to_maturity"] if is_option else ["underlier_spot", "zeros"]) + ["prev_hedge"]
+        model = _dyadic_linear(3, 1, block.get("wseed", 0), dtype)
     else:
         raise KeyError(mv)
     crit = make(block["crit"], block["param"], block["dtype"])
@@ -515,7 +564,11 @@ def price(ctx, block):
                       expected=[[], False, block["dtype"]], block=block)
         return
     # (2) minus the cash amount of (portfolio - payoff) on the same scripts
-    pls = _pls(hedger, deriv, hedge, stock, scripts)
+    pls = _pls(hedger, deriv, hedge, stock, scripts, block)
+    if crit == "iso" and any(float(q.min()) <= 0 for q in pls):
+        # precondition of the isoelastic utility (domain x > 0) not met by this book: nothing is prescribed
+        ctx.add("isoelastic_books_outside_domain", 1)
+        return
     parts, tols = [], []
     with torch.no_grad():
         for q in pls:
@@ -549,6 +602,36 @@ def price(ctx, block):
             ctx.violation(site, "not_certainty_equivalent", f"price() with {name} on {tag}: the indifference price is "
                           f"the {'largest loss' if crit == 'user_worst' else 'mean of the ceil(pN) largest losses'} of "
                           f"portfolio - payoff on the scripted paths", observed=g, expected=ref, block=block)
+    # (2c) risk-averse criteria: cash <= mean, i.e. the quote is at least minus the mean P&L
+    if crit not in NOT_RISK_AVERSE and crit != "qcvar":
+        floor = -sum(float(q.to(torch.float64).mean()) for q in pls) / n_times
+        ctx.tick(1, nontrivial=1)
+        if not g >= floor - tol - 8 * n_paths * eps * max(float(q.abs().max()) for q in pls):
+            ctx.violation(site, "price_below_minus_mean", f"price() with the risk-averse {name} on {tag}: the cash amount "
+                          f"of portfolio - payoff exceeds its mean", observed=g, expected=floor, block=block)
+    # (2d) the hedger object has no memory: every further call on the SAME hedger (same scripts) quotes the same
+    # price, the same portfolio and the same loss (state-dependent models restart from a flat position)
+    if block.get("repeat"):
+        for r in range(block["repeat"]):
+            sim.calls = 0
+            again = float(hedger.price(deriv, hedge=hedge, n_paths=n_paths, n_times=n_times, init_state=init))
+            pls2 = _pls(hedger, deriv, hedge, stock, scripts, block)
+            sim.calls = 0
+            with torch.no_grad():
+                l1 = float(hedger.compute_loss(deriv, hedge=hedge, n_paths=n_paths, n_times=n_times, init_state=init))
+                sim.calls = 0
+                l2 = float(hedger.compute_loss(deriv, hedge=hedge, n_paths=n_paths, n_times=n_times, init_state=init))
+            ctx.tick(3, nontrivial=3)
+            if again != g and not (math.isnan(again) and math.isnan(g)):
+                ctx.violation(site, "repeated_call_differs", f"call {r + 2} of price() on the same hedger ({name} on {tag}) "
+                              f"differs from the first call", observed=again, expected=g, block=block)
+            if not all(torch.equal(a, b) for a, b in zip(pls, pls2)):
+                ctx.violation("Hedger.compute_portfolio", "repeated_call_differs", f"compute_portfolio on the same hedger "
+                              f"and the same paths changed between calls ({tag})",
+                              observed=[float(b.sum()) for b in pls2], expected=[float(a.sum()) for a in pls], block=block)
+            if l1 != l2 and not (math.isnan(l1) and math.isnan(l2)):
+                ctx.violation("Hedger.compute_loss", "repeated_call_differs", f"two compute_loss calls on the same hedger "
+                              f"and the same scripts differ ({name} on {tag})", observed=l2, expected=l1, block=block)
     # (3) entropic risk measure: the price is the loss
     if crit == "erm":
         sim.calls = 0
@@ -575,13 +658,31 @@ def price(ctx, block):
                     "price": g, "minus_cash_of_portfolio_minus_payoff": want, "simulate_calls": calls})
 
 
-def _pls(hedger, deriv, hedge, stock, scripts):
-    """portfolio - payoff per script, recomputed on the very buffers the script registers."""
+def _contractual_payoff(block, deriv, stock):
+    """The contractual payoff by the reference: the registered clauses folded, in registration
+    order, over payoff_fn() - written per clause kind from the contract terms, not derivative.payoff()."""
+    pay = deriv.payoff_fn()
+    for k in block.get("clauses", []):
+        if k == "neg":
+            pay = -pay
+        elif isinstance(k, str) and k.startswith("cap:"):
+            pay = torch.minimum(pay, torch.full_like(pay, float(k[4:])))
+        elif isinstance(k, str) and k.startswith("ko:"):
+            alive = torch.tensor([max(row) < float(k[3:]) for row in stock.spot.tolist()])
+            pay = torch.where(alive, pay, torch.zeros_like(pay))
+        else:
+            pay = pay + k
+    return pay
+
+
+def _pls(hedger, deriv, hedge, stock, scripts, block=None):
+    """portfolio - contractual payoff per script, recomputed on the very buffers the script registers."""
     out = []
     with torch.no_grad():
         for s in scripts:
             market.set_buffers(stock, **s)
-            out.append(hedger.compute_portfolio(deriv, hedge) - deriv.payoff())
+            pay = deriv.payoff() if block is None else _contractual_payoff(block, deriv, stock)
+            out.append(hedger.compute_portfolio(deriv, hedge) - pay)
     return out
 
 
@@ -629,19 +730,23 @@ def price_blocks(ctx):
     Ts = [3] if ctx.quick else [3, 4]
     crits = [("erm", 1.0), ("erm", 10.0), ("eloss", 1.0), ("es", 0.5), ("es", 0.05), ("qcvar", 1.0), ("qcvar", 10.0),
              ("iso", 0.5), ("user_blend", 0.5), ("oce", 0.5), ("user_worst", 0.0), ("user_es", 0.05),
-             ("user_es", 0.5)]
+             ("user_es", 0.5), ("user_lossonly", 0.0), ("user_satiated", 0.25), ("oce_cvar", 0.5)]
     for T in Ts:
         for kind in market.ALL_DERIVATIVE_KINDS:
-            for mv in ("naked", "linear", "bs"):
-                if mv == "bs" and kind not in market.OPTION_KINDS:
+            for mv in ("naked", "linear", "bs", "ww", "linear_prev"):
+                if mv in ("bs", "ww") and kind not in market.OPTION_KINDS:
                     continue
                 for crit, p in crits:
                     for alphabets in ([A0], [A0, A1]):
-                        if ctx.quick and len(alphabets) == 2 and mv == "bs" and kind != "european":
+                        if ctx.quick and len(alphabets) == 2 and mv in ("bs", "ww") and kind != "european":
+                            continue
+                        if ctx.quick and mv in ("ww", "linear_prev") and crit not in ("erm", "es", "qcvar", "user_blend") \
+                                and not (crit == "eloss" and kind == "european"):
                             continue
                         b = {"T": T, "derivative": kind, "model": mv, "crit": crit, "param": p, "dtype": "float64",
                              "alphabets": alphabets, "cost": 1 / 512, "wseed": ctx.seed % 5,
-                             "hedge": "stock" if mv == "linear" else None,
+                             "hedge": "stock" if mv in ("linear", "linear_prev") else None,
+                             "repeat": 2 if mv in ("ww", "linear_prev") else (1 if mv == "linear" and T == 3 else 0),
                              "init_state": [1.0] if len(alphabets) == 2 else None}
                         if crit in CLOSED:
                             b["shift"] = 0.375
@@ -649,6 +754,26 @@ def price_blocks(ctx):
                             # isoelastic utility needs a positive P&L: a funded position (clause -16 on the payoff)
                             b["clauses"] = [-16.0]
                         out.append(b)
+                        if crit in ("user_lossonly", "user_satiated", "oce_cvar") and mv in ("naked", "linear"):
+                            # a book that gains on every path (long the derivative, paid 1/1024 on top): the P&L is
+                            # right-skewed and lies in the flat part of these utilities
+                            b2 = dict(b)
+                            b2["clauses"] = ["neg", -1 / 1024]
+                            out.append(b2)
+    # derivatives carrying 2 and 3 clauses (knock-out at 1.5, cap at 0.25, + 1/8), every order: the clauses compose
+    import itertools
+    terms = ["ko:1.5", "cap:0.25", 0.125]
+    clause_lists = [list(c) for r in (2, 3) for c in itertools.permutations(terms, r)]
+    for kind in (("european", "lookback") if ctx.quick else market.OPTION_KINDS):
+        for mv in ("naked", "linear"):
+            for crit, p in (("erm", 1.0), ("es", 0.5)) + ((("qcvar", 10.0), ("user_blend", 0.5)) if ctx.thorough else ()):
+                for cl in clause_lists:
+                    b = {"T": 3, "derivative": kind, "model": mv, "crit": crit, "param": p, "dtype": "float64",
+                         "alphabets": [A0], "cost": 1 / 512, "wseed": ctx.seed % 5,
+                         "hedge": "stock" if mv == "linear" else None, "init_state": None, "clauses": cl}
+                    if crit in CLOSED:
+                        b["shift"] = 0.375
+                    out.append(b)
     # float32 world
     for crit, p in (("erm", 1.0), ("es", 0.5), ("qcvar", 10.0)):
         out.append({"T": 3, "derivative": "european", "model": "linear", "crit": crit, "param": p, "dtype": "float32",
@@ -661,8 +786,10 @@ def run(ctx):
              "parameter x dtype/scale x target {none, scalar, tensor}: one cash() call per sample (identity, range, mean), "
              "then all samples as columns of one (N,M) and (N,M',2) tensor (column-wise equality); non-trivial = "
              "non-constant samples.  price: scripted market with ALL |A|^T price paths x 6 derivative kinds x hedgers "
-             "{Naked, dyadic Linear, BlackScholes} x criteria x n_times {1,2} (+ clause payoff+k, + compute_loss for the "
-             "entropic risk measure); one evaluation = one price() call compared on the same script")
+             "{Naked, dyadic Linear, BlackScholes, WhalleyWilmott, Linear+prev_hedge} x criteria x n_times {1,2} (+ clause "
+             "payoff+k, + long position clause, + compute_loss for the entropic risk measure, + repeated price / "
+             "compute_portfolio / compute_loss calls on the same hedger for state-dependent models); one evaluation = one "
+             "price() call compared on the same script")
     ctx.assume("identity slack = (search precision 1e-6 for the default search | derived rounding of the closed form) x "
                "slope of c -> criterion(const c), + derived rounding of both criterion values")
     ctx.assume("user criteria are monotone with certainty equivalent inside [min, max] on the enumerated samples "
